@@ -108,6 +108,7 @@ package gohlslib
 //@   loop 1 invariant held(&q.mutex) && calls("close") == 0
 //@   loop 1 invariant atlock(q.queue) == q.queue && atlock(q.didPull) == q.didPull
 //@   loop 1 invariant forall(i, (0 <= i && i < len(q.queue)) ==> atlock(q.queue[i]) == q.queue[i])
+//@   atwait atlock(len(q.queue)) == 0
 //@ end
 
 //@ func clientSegmentQueue.waitUntilSizeIsBelow
@@ -116,6 +117,9 @@ package gohlslib
 //@   ensures result ==> atlock(len(q.queue)) <= n
 //@   ensures calls("close") == 0
 //@   loop 1 invariant held(&q.mutex) && atlock(q.queue) == q.queue
+// it blocks only while the backlog it last saw under the lock exceeds n (a downloader is released as soon as the
+// backlog has drained to n), and a puller blocks only on an empty queue
+//@   atwait atlock(len(q.queue)) > n
 //@ end
 
 // ---------------------------------------------------------------------------------------
@@ -852,7 +856,7 @@ package gohlslib
 //@ axiom cntps_def forall_as(a, [][]byte, forall(n, n >= 1 ==> cntps(a, n) == cntps(a, n - 1) + ite(mod(a[n - 1][0], 32) == 7 || mod(a[n - 1][0], 32) == 8, 1, 0)))
 
 //@ func muxerSegmenter.writeH264
-//@   props C01 C02
+//@   props C01 C02 C09
 //@   role writer
 //@   nocallpre
 //@   requires s.variant != MuxerVariantMPEGTS && fmp4Pre(s, track) && is(track.Codec, *codecs.H264) && ref(track.Codec) != 0
@@ -894,7 +898,7 @@ package gohlslib
 //@ axiom cntps5_def forall_as(a, [][]byte, forall(n, n >= 1 ==> cntps5(a, n) == cntps5(a, n - 1) + ite(mod(div(a[n - 1][0], 2), 64) >= 32 && mod(div(a[n - 1][0], 2), 64) <= 34, 1, 0)))
 
 //@ func muxerSegmenter.writeH265
-//@   props C01 C02
+//@   props C01 C02 C09
 //@   role writer
 //@   nocallpre
 //@   requires s.variant != MuxerVariantMPEGTS && fmp4Pre(s, track) && is(track.Codec, *codecs.H265) && ref(track.Codec) != 0
@@ -929,7 +933,7 @@ package gohlslib
 //@ end
 
 //@ func muxerSegmenter.writeVP9
-//@   props C01 C02
+//@   props C01 C02 C09
 //@   role writer
 //@   nocallpre
 //@   requires fmp4Pre(s, track) && is(track.Codec, *codecs.VP9) && ref(track.Codec) != 0
@@ -953,7 +957,7 @@ package gohlslib
 //@ end
 
 //@ func muxerSegmenter.writeAV1
-//@   props C01 C02
+//@   props C01 C02 C09
 //@   role writer
 //@   nocallpre
 //@   requires fmp4Pre(s, track) && is(track.Codec, *codecs.AV1) && ref(track.Codec) != 0
@@ -1145,6 +1149,7 @@ package gohlslib
 //@   ensures calls("io.Copy") == 1 ==> (callarg("invoke.WriteHeader", 0, 1) == 200 && calls("http.Header.Set") == 2
 //@        && ((callarg("http.Header.Set", 0, 1) == "Content-Type" && callarg("http.Header.Set", 0, 2) == "video/mp4")
 //@         || (callarg("http.Header.Set", 1, 1) == "Content-Type" && callarg("http.Header.Set", 1, 2) == "video/mp4")))
+//@   atcall invoke.WriteHeader arg1 == 200 ==> calls("http.Header.Set") == 2
 //@ end
 
 //@ func muxerStream.rotateSegments$1
@@ -1157,6 +1162,7 @@ package gohlslib
 //@   ensures calls("io.Copy") == 1 ==> (callarg("invoke.WriteHeader", 0, 1) == 200 && calls("http.Header.Set") == 2
 //@        && ((callarg("http.Header.Set", 0, 1) == "Content-Type" && callarg("http.Header.Set", 0, 2) == ite(s.variant == MuxerVariantMPEGTS, "video/MP2T", "video/mp4"))
 //@         || (callarg("http.Header.Set", 1, 1) == "Content-Type" && callarg("http.Header.Set", 1, 2) == ite(s.variant == MuxerVariantMPEGTS, "video/MP2T", "video/mp4"))))
+//@   atcall invoke.WriteHeader arg1 == 200 ==> calls("http.Header.Set") == 2
 //@ end
 
 //@ func muxerStream.generateAndCacheInitFile$1
@@ -1166,6 +1172,7 @@ package gohlslib
 //@   ensures calls("invoke.WriteHeader") == 1 && callarg("invoke.WriteHeader", 0, 1) == 200 && calls("invoke.Write") == 1 && callarg("invoke.Write", 0, 1) == ref(initFile)
 //@   ensures calls("http.Header.Set") == 2 && ((callarg("http.Header.Set", 0, 1) == "Content-Type" && callarg("http.Header.Set", 0, 2) == "video/mp4")
 //@         || (callarg("http.Header.Set", 1, 1) == "Content-Type" && callarg("http.Header.Set", 1, 2) == "video/mp4"))
+//@   atcall invoke.WriteHeader arg1 == 200 ==> calls("http.Header.Set") == 2
 //@ end
 
 // ---------------------------------------------------------------------------------------
@@ -1175,7 +1182,15 @@ package gohlslib
 //@   props C09 C10 C13
 //@   requires init != nil && len(init.Tracks) >= 1 && forall(i, (0 <= i && i < len(init.Tracks)) ==> (init.Tracks[i] != nil && init.Tracks[i].Codec != nil))
 //@   ensures exists(i, 0 <= i && i < len(init.Tracks) && init.Tracks[i].ID == result)
-//@   loop 1 invariant ri < len(init.Tracks)
+// C10: the leading track is the first one whose codec says it is video (mediacommon's Codec.IsVideo, asked for every
+// track in order until one answers yes), else the first track
+//@   loop 1 invariant ri < len(init.Tracks) && calls("invoke.IsVideo") == ri + 1
+//@   loop 1 invariant forall(k, (0 <= k && k <= ri) ==> (callres("invoke.IsVideo", k) == 0 && callarg("invoke.IsVideo", k, 0) == ref(init.Tracks[k].Codec)))
+//@   ensures calls("invoke.IsVideo") >= 1 && calls("invoke.IsVideo") <= len(init.Tracks)
+//@   ensures forall(k, (0 <= k && k < calls("invoke.IsVideo")) ==> callarg("invoke.IsVideo", k, 0) == ref(init.Tracks[k].Codec))
+//@   ensures forall(k, (0 <= k && k < calls("invoke.IsVideo") - 1) ==> callres("invoke.IsVideo", k) == 0)
+//@   ensures callres("invoke.IsVideo", calls("invoke.IsVideo") - 1) != 0 ==> result == init.Tracks[calls("invoke.IsVideo") - 1].ID
+//@   ensures callres("invoke.IsVideo", calls("invoke.IsVideo") - 1) == 0 ==> (calls("invoke.IsVideo") == len(init.Tracks) && result == init.Tracks[0].ID)
 //@ end
 
 //@ func findFirstPartTrackOfLeadingTrack
@@ -1214,6 +1229,12 @@ package gohlslib
 //@   ensures calls("dyncall") <= 1
 //@   ensures calls("dyncall") == 1 ==> (pts >= 0 && result == nil && t.lastAbsoluteTime == ntp && callarg("dyncall", 0, 0) == pts && callarg("dyncall", 0, 1) == dts && callarg("dyncall", 0, 2) == ref(data))
 //@   ensures (pts >= 0 && result == nil) ==> calls("dyncall") == 1
+// C13: pacing never sleeps longer than clientMaxDTSRTCDiff (10 s): a unit whose DTS is further ahead of the wall clock ends
+// the stream with an error; a unit that is not ahead is delivered at once
+//@   ensures calls("time.After") <= 1
+//@   ensures calls("time.After") == 1 ==> (callarg("time.After", 0, 0) <= 10000000000 && callarg("time.After", 0, 0) > 0
+//@        && callarg("time.After", 0, 0) == timestampToDuration(dts, t.track.ClockRate) - callres("time.Since", 0))
+//@   ensures (pts >= 0 && timestampToDuration(dts, t.track.ClockRate) - callres("time.Since", 0) > 10000000000) ==> (result != nil && calls("time.After") == 0 && calls("dyncall") == 0)
 //@ end
 
 //@ func clientTrackProcessorFMP4.initialize
